@@ -891,6 +891,8 @@ func (v *Decoder) walkNode(ectx evaluationContext, n *html.Node) error {
 				}
 
 				listMapping[relValue].Objects = append(listMapping[relValue].Objects, currentObjectResource)
+
+				attrRelValid = true
 			}
 		}
 
